@@ -48,7 +48,8 @@ def marker(r, p_marker):
 def key(r, pool=KEYS, p_marker=0, p_odd=2):
     if r.chance(p_odd, 100):
         return r.choice([{"i": "1"}, True, None, {"i": "0"}, False, {"i": "9223372036854775808"}, {"i": "18446744073709551615"},
-                         {"i": "-9223372036854775808"}, {"i": "9223372036854775807"}, {"i": "42"}])
+                         {"i": "-9223372036854775808"}, {"i": "9223372036854775807"}, {"i": "42"},
+                         "", "~", "=", "a ", " a", "b\t", "a b", "~ ", "= a"])
     return marker(r, p_marker) + r.choice(pool)
 
 
